@@ -83,9 +83,9 @@ func compareEntry(want model.Entry, got *klog.Entry) error {
 			err = e
 		} else if r.Duration().InMinutes() != want.End.Off-want.Start.Off {
 			err = fmt.Errorf("range duration %d, want %d", r.Duration().InMinutes(), want.End.Off-want.Start.Off)
-		} else if r.Format().UseSpacesAroundDash != want.Spaces() {
+		} else if want.SpacesKnown() && r.Format().UseSpacesAroundDash != want.Spaces() {
 			err = fmt.Errorf("dash spacing notation lost")
-		} else if r.ToString() != model.CanonValue(want) {
+		} else if r.ToString() != model.CanonValue(want) && (want.SpacesKnown() || r.ToString() != model.CanonValueBy(want, 2)) {
 			err = fmt.Errorf("ToString %q, want %q", r.ToString(), model.CanonValue(want))
 		}
 		return nil
@@ -107,11 +107,11 @@ func compareEntry(want model.Entry, got *klog.Entry) error {
 		}
 		if e := compareTime(want.Start, o.Start(), "start"); e != nil {
 			err = e
-		} else if o.Format().UseSpacesAroundDash != want.Spaces() {
+		} else if want.SpacesKnown() && o.Format().UseSpacesAroundDash != want.Spaces() {
 			err = fmt.Errorf("dash spacing notation lost")
 		} else if o.Format().AdditionalPlaceholderChars != want.QMarks-1 {
 			err = fmt.Errorf("placeholder count %d, want %d", o.Format().AdditionalPlaceholderChars+1, want.QMarks)
-		} else if o.ToString() != model.CanonValue(want) {
+		} else if o.ToString() != model.CanonValue(want) && (want.SpacesKnown() || o.ToString() != model.CanonValueBy(want, 2)) {
 			err = fmt.Errorf("ToString %q, want %q", o.ToString(), model.CanonValue(want))
 		}
 		return nil
